@@ -239,3 +239,67 @@ class strict_result_independent_of_now:
 
 
 CONTRACTS = [check_strict_parsing, strictness_only_filters, strict_result_independent_of_now]
+
+
+class api_level_strictness:
+    """C10 at the API: strictness must only filter, also through the custom-format parser and
+    across languages.  Concrete inputs (the first design's composition counterexamples); all-concrete
+    obligations, evaluated on the real call chain."""
+
+    name = "api/strictness-only-filters"
+    func = "dateparser.parse"
+    props = ["C10"]
+    concrete_samples = 1
+
+    @staticmethod
+    def cases():
+        return [
+            dict(string="March 2015", formats=["%B %Y"], strict={"STRICT_PARSING": True}, langs=["en"]),
+            dict(string="2015", formats=["%Y"], strict={"REQUIRE_PARTS": ["month"]}, langs=["en"]),
+            dict(string="12 March 2015", formats=["%d %B %Y"], strict={"STRICT_PARSING": True},
+                 langs=["en"]),
+            dict(string="02/29", formats=None, strict={"REQUIRE_PARTS": ["year"]}, langs=None),
+            dict(string="02/29", formats=None, strict={"REQUIRE_PARTS": ["year"]}, langs=["en"]),
+            dict(string="1484823450", formats=None, strict={"STRICT_PARSING": True}, langs=["en"]),
+            dict(string="10 mars", formats=None, strict={"STRICT_PARSING": True}, langs=["fr", "en"]),
+        ]
+
+    @staticmethod
+    def setup(inp, case):
+        import datetime
+
+        import dateparser
+
+        from contracts.c_formats import _Clock
+
+        base = {"RELATIVE_BASE": datetime.datetime(2021, 8, 31, 12, 30)}
+        clock = _Clock(inp)  # both runs read the same system clock
+        clock.install(inp)
+
+        def run():
+            off = dateparser.parse(case["string"], date_formats=case["formats"],
+                                   languages=case["langs"], settings=dict(base))
+            on = dateparser.parse(case["string"], date_formats=case["formats"],
+                                  languages=case["langs"], settings=dict(base, **case["strict"]))
+            return off, on
+
+        return run, (), {}, {}
+
+    @staticmethod
+    def post(case, g, out):
+        if not out.ok:
+            return {"no-exception": False}
+        off, on = out.value
+        states = {"March 2015": {"month", "year"}, "2015": {"year"},
+                  "12 March 2015": {"day", "month", "year"}, "02/29": {"day", "month"},
+                  "1484823450": {"day", "month", "year"}, "10 mars": {"day", "month"}}[case["string"]]
+        required = {"day", "month", "year"} if case["strict"].get("STRICT_PARSING") else set(
+            case["strict"]["REQUIRE_PARTS"])
+        return {
+            "no-exception": True,
+            "strict-result-is-the-non-strict-result-or-None": on is None or on == off,
+            "a-result-only-if-the-string-states-the-required-parts": on is None or required <= states,
+        }
+
+
+CONTRACTS += [api_level_strictness]
